@@ -45,9 +45,9 @@ register_Color3Array()
 {
     class_<FixedArray<IMATH_NAMESPACE::Color3<T> > > color3Array_class = FixedArray<IMATH_NAMESPACE::Color3<T> >::register_("Fixed length array of Imath::Color3");
     color3Array_class
-        .add_property("r",&Color3Array_get<T,0>)
-        .add_property("g",&Color3Array_get<T,1>)
-        .add_property("b",&Color3Array_get<T,2>)
+        .add_property("r",boost::python::make_function(&Color3Array_get<T,0>,boost::python::with_custodian_and_ward_postcall<0,1>()))
+        .add_property("g",boost::python::make_function(&Color3Array_get<T,1>,boost::python::with_custodian_and_ward_postcall<0,1>()))
+        .add_property("b",boost::python::make_function(&Color3Array_get<T,2>,boost::python::with_custodian_and_ward_postcall<0,1>()))
         ;
 
     return color3Array_class;
